@@ -17,16 +17,17 @@ CLAIMS = {
             'the submitted byte strings in id order, each once (invariants acc/auth of ReceiveChannelReliable + SliceConstructor, all operations, unbounded). '
             'Sender bookkeeping and the resend loop body are under contract too (units U6/U9), and RenetClient::{new, new_from_server, from_channels} are proved verbatim to build '
             'each configured channel with its configured kind, budget and direction (U14).',
-            'Not decided: the liveness sentence (bounded ticks), the glue in RenetClient::process_packet/get_packets_to_send (channel routing), '
+            'RenetClient::{process_packet, send_message, receive_message} are proved verbatim (U15): a decodable packet reaches exactly the channel it names, every (id, bytes) pair of it is taken over or already done, '
+            'nothing else changes; send_message stores the bytes once under the next id of the named channel. Not decided: the liveness sentence (bounded ticks), RenetClient::get_packets_to_send glue and the Ack arm of process_packet (ack -> message id lookup), '
             'and that the renet wire codec is the identity on (id, bytes) pairs (see C16).'),
     'C02': ('Unordered reliable receive: `done` is monotone, a message is stored only if its id is not done, receive_message removes exactly what it returns, '
             'and returns Some whenever a complete message is buffered; the cursor loop is proved with invariant and decreases. A ReliableUnordered configuration entry yields an '
             'unordered receive channel (RenetClient::from_channels, verbatim, U14).',
-            'Not decided: liveness; RenetClient glue.'),
+            'Not decided: liveness; RenetClient::get_packets_to_send glue and the Ack arm of process_packet.'),
     'C03': ('Reassembly equals the submitted bytes for every length and every arrival order with duplicates (one quantified statement over all messages m: '
             'agrees(m) is preserved, a result appears only when all slices arrived and then equals m); buffered bytes per id stay authentic. Sender: every unreliable slice packet '
             'carries the id opened for its message, ids of one flush are fresh and never shared by two messages (U7).',
-            'Not decided: channel-id routing in RenetClient::process_packet.'),
+            'Channel-id routing of slices and messages in RenetClient::process_packet is proved verbatim (U15: only the named channel changes; an authentic unreliable slice never costs the connection). Not decided: RenetClient::get_packets_to_send glue.'),
     'C04': ('Replay window: for all u64 sequences, a sequence in the accepted set is always reported as received and a fresh one less than 256 behind is accepted '
             '(Verus, ghost accepted set). Packet::decode (Kani, complete for datagrams 0..=48 bytes, all prefix bytes): window consulted before the AEAD, advanced only '
             'after the AEAD accepted that datagram, AAD = version||protocol id||prefix, nonce = decoded sequence, ciphertext = whole remainder.',
@@ -34,14 +35,15 @@ CLAIMS = {
             'Not decided: server-side gating in NetcodeServer (out of reach).'),
     'C06': ('No precondition on wire-controlled arguments: SliceConstructor, both receive channels (as listed in the evidence) and the ack list return for every input, '
             'without index/overflow/unreachable failures, keep memory == sum of what is stored <= max.',
-            'Not decided: RenetClient::process_packet itself (error -> disconnect mapping) and RenetServer::process_packet_from.'),
+            'RenetClient::process_packet is proved verbatim with no precondition on the bytes (U15): it returns for every input; undecodable bytes, an unknown channel id or a channel error only move the connection '
+            'to Disconnected with the matching reason; the client invariant (every channel invariant while alive) is preserved. Not decided: the Ack arm of process_packet (BTreeMap::range, floating point: rule D8) and RenetServer::process_packet_from beyond its routing frame.'),
     'C07': ('Packet::decode returns for every datagram of length 0..=48 with all 256 prefix bytes and announced sequence lengths 0..15, with and without key (Kani, complete '
             'for that length range; AEAD stubbed with its precondition checked); a datagram the AEAD did not accept leaves the replay window untouched; '
             'ReplayProtection has no precondition on the sequence (Verus).',
             'Not decided: NetcodeServer::process_packet (out of reach). Client/token harnesses are listed in the evidence when unit U12 is present.'),
     'C08': ('The pending-ack list never contains a sequence that was not added (view(final) subset of view(old)+{q}), stays sorted/disjoint/non-adjacent for any arrival '
             'order and is trimmed exactly up to the horizon by acked_largest (Verus, unbounded).',
-            'Not decided: the composition in RenetClient::process_packet (ack ranges -> sent_packets -> message ids).'),
+            'Every decodable non-Ack packet handed to RenetClient::process_packet has its sequence recorded by add_pending_ack (U15). Not decided: the composition in the Ack arm of RenetClient::process_packet (ack ranges -> sent_packets -> message ids).'),
     'C09': ('Accounting invariant memory_usage_bytes == sum of stored message lengths + reserved reassembly buffers <= max, preserved by every operation of the reliable '
             'receive channel from every state, including the offset state inside process_slice; duplicates of done messages reserve nothing (clean()).',
             'Not decided: the end-to-end "never disconnected within budget" sentence; other channel structs when their units are not listed in the evidence.'),
@@ -86,7 +88,7 @@ CLAIMS.update({
     'C12': ('RenetClient status setters never leave Disconnected and never change the first reason (set_connected, set_connecting, disconnect, disconnect_due_to_transport, '
             'disconnect_with_reason: full frame: nothing but the status changes). RenetServer: ClientConnected{id} is queued only when id was absent, ClientDisconnected{id, reason} only when '
             'present, with the stored first reason or Transport; get_event is FIFO; no other operation touches the id set or the queue; disconnect_all loop body keeps first reasons.',
-            'Not decided: early returns at the top of RenetClient::{process_packet, get_packets_to_send, send_message, receive_message} (generic Into<> parameters / out of reach); '
+            'RenetClient::{process_packet, send_message, receive_message} leave a disconnected client exactly as it was and only ever move the status to Disconnected (U15). Not decided: the early return of RenetClient::get_packets_to_send; '
             'the per-id alternation Connected, Disconnected, ... follows from the add/remove contracts by induction over calls (argument, not a checked obligation).'),
     'C18': ('Client-side step contracts only (Kani, complete over any token value, any state, any timers below 2^40 s): update disconnects a connected client exactly when no packet arrived for more than '
             'timeout_seconds, moves a timed-out connecting client to the next listed address or gives up, produces at most one packet per 250 ms; only a datagram that decoded refreshes '
